@@ -108,6 +108,9 @@ def _mesh(c, table, fill, si, tr):
     upper = {'face_node': info['nnode'], 'edge_node': info['nnode'], 'face_edge': info['nedge'], 'edge_face': info['nface'], 'face_face': info['nface']}[table]
     t = Table(c, table, nrows, width, fill, si, tr, rowdim, coldim, upper)
     ds._vars[table] = t.variable
+    if table != 'face_node':
+        # every table carries its OWN index base: the face-node table of this dataset uses the other one
+        ds._vars['face_node'].attrs['start_index'] = 0 if (si in (1, '1')) else 1
     return ds, t, nrows, width
 
 
